@@ -9,6 +9,7 @@ type harnessSpec struct {
 	MustReach    []string
 	ThoroughOnly bool
 	QuickOnly    bool
+	Panics       bool   // a reproduced panic in library code is a violation of this property (crash-freedom / "is refused with an error" clauses)
 	CrossSolver  string // thorough tier: re-run the whole harness on this solver and compare verdicts
 	Env          map[string]string
 }
@@ -17,6 +18,9 @@ type propSpec struct {
 	Harnesses   []harnessSpec
 	Assumptions []string
 	Explanation string
+	Level       string // level_claimed.text
+	Note        string // level_note
+	DesignRef   string
 }
 
 var commonAssumptions = []string{
